@@ -7,6 +7,10 @@ From CB Require Import Gen GenProofs Machine MachineFacts SeqlockInv GenCyc Seql
 Import ListNotations.
 Open Scope nat_scope.
 
+Section Gen.
+Context {RF : RecFun}.
+
+
 (* ------------------------------------------------------------------ two more facts about logs *)
 Definition body_kind (e : event) : Prop := e_kind e = KOdd \/ e_kind e = KCell \/ e_kind e = KEven.
 
@@ -128,7 +132,7 @@ Qed.
    call's record *)
 Theorem quiescent_cells n L q e : LogInv n L -> LogInv2 L ->
   latest LGen L = Some q -> ev L q = Some e -> e_kind e = KEven ->
-  forall i, i < n -> latest_val (LCell i) L = nth i (rec_of n (e_att e)) 0%Z.
+  forall i, i < n -> latest_val (LCell i) L = nth i (recf n (e_att e)) 0%Z.
 Proof.
   intros LI LI2 HL E K i Hi.
   destruct (L_even _ _ LI q e E K) as [_ Hall]. destruct (Hall i Hi) as (p & c & Hpq & Ec & Elc & Kc & Ac).
@@ -346,7 +350,7 @@ Theorem fresh_call c L r q e : safe_cfg c = true -> (0 < c_retries c)%N ->
   latest_val LVer L <> 0%Z ->
   latest LGen L = Some q -> ev L q = Some e -> e_kind e = KEven ->
   exists ret r', sc_run c L r (c_cells c + 4) = Some (ret, r') /\ r_pc r' = RIdle /\ SCInv (c_cells c) L (r_view r') /\
-    ((ret = RetFresh /\ r_cache r' = rec_of (c_cells c) (e_att e) /\ r_cache_gen r' = e_val e) \/
+    ((ret = RetFresh /\ r_cache r' = recf (c_cells c) (e_att e) /\ r_cache_gen r' = e_val e) \/
      (ret = RetCache /\ r_cache r' = r_cache r /\ r_cache_gen r' = r_cache_gen r /\ e_val e = r_cache_gen r)).
 Proof.
   intros Hs Hret LI LI2 GV RB HS Hpc Hver Hq Ee Ke.
@@ -502,8 +506,8 @@ Proof.
   unfold m_step in St. rewrite Ec in St. destruct t as [| j ch | | | | v]; try contradiction.
   - set (starting := match w_pc (m_w m) with WIdle => true | _ => false end) in *.
     set (k := if starting then Datatypes.S (m_nrec m) else m_nrec m) in *.
-    destruct (w_step c (m_w m) (rec_of (c_cells c) k) k) as [w' [it|]] eqn:W; inversion St; subst m' o; clear St; [|exact I].
-    assert (Hk : w_pc (m_w m) = WIdle -> w_att (m_w m) < k /\ rec_of (c_cells c) k = rec_of (c_cells c) k).
+    destruct (w_step c (m_w m) (recf (c_cells c) k) k) as [w' [it|]] eqn:W; inversion St; subst m' o; clear St; [|exact I].
+    assert (Hk : w_pc (m_w m) = WIdle -> w_att (m_w m) < k /\ recf (c_cells c) k = recf (c_cells c) k).
     { intros E. unfold k, starting. rewrite E. pose proof (F_att _ _ I). split; [lia | reflexivity]. }
     destruct (w_step_log _ _ _ _ _ _ W) as (x & Ex).
     constructor; cbn [m_cfg m_w m_rs m_nrec].
@@ -607,7 +611,7 @@ Theorem fresh_machine c ts m o j r q e : safe_cfg c = true -> (0 < c_retries c)%
   exists k m' pre ret r', k <= c_cells c + 4 /\
     m_run m (repeat (TR j None) k) = (m', pre ++ [ORet j ret (r_cache r')]) /\ Forall is_access pre /\
     nth_error (m_rs m') j = Some r' /\ r_pc r' = RIdle /\ m_w m' = m_w m /\
-    ((ret = RetFresh /\ r_cache r' = rec_of (c_cells c) (e_att e) /\ r_cache_gen r' = e_val e) \/
+    ((ret = RetFresh /\ r_cache r' = recf (c_cells c) (e_att e) /\ r_cache_gen r' = e_val e) \/
      (ret = RetCache /\ r_cache r' = r_cache r /\ e_val e = r_cache_gen r)).
 Proof.
   intros Hs Hret Hts R Er Hpc Hq Ee Ke.
@@ -629,7 +633,7 @@ Qed.
    from (needs the release/acquire invariants, hence the window condition on the history) *)
 Definition GenTagInv (c : cfg) (L : list event) (r : rst) : Prop :=
   (r_cache_gen r = 0%Z /\ r_cache r = repeat 0%Z (c_cells c)) \/
-  exists q e, ev L q = Some e /\ e_kind e = KEven /\ e_val e = r_cache_gen r /\ r_cache r = rec_of (c_cells c) (e_att e).
+  exists q e, ev L q = Some e /\ e_kind e = KEven /\ e_val e = r_cache_gen r /\ r_cache r = recf (c_cells c) (e_att e).
 
 Lemma GenTagInv_new c L : GenTagInv c L (r_new c L).
 Proof. left. split; reflexivity. Qed.
@@ -648,19 +652,19 @@ Proof.
 Qed.
 
 Record MInv3 (c : cfg) (m : mstate) : Prop := {
-  M3_inv : MInv2 c m;
+  M3_inv : MInv c m;
   M3_tag : Forall (GenTagInv c (w_log (m_w m))) (m_rs m)
 }.
 
 Lemma MInv3_init c : MInv3 c (m_init c).
-Proof. constructor; [apply MInv2_init | constructor]. Qed.
+Proof. constructor; [apply MInv_init | constructor]. Qed.
 
 Theorem m_step_tag_win c m t m' o : safe_cfg c = true -> MInv3 c m -> real_token t ->
   m_step m t = (m', o) -> Forall (window_ok (w_log (m_w m))) (m_rs m) -> MInv3 c m'.
 Proof.
-  intros Hs [I2 TG] Ht St Hwin. pose proof (M2_inv _ _ I2) as I.
-  destruct (m_step_mono_win c m t m' o Hs I2 Ht St Hwin) as (I2' & _).
-  constructor; [exact I2'|].
+  intros Hs [I TG] Ht St Hwin.
+  destruct (m_step_inv_win c m t m' o Hs I Ht St Hwin) as (I' & _).
+  constructor; [exact I'|].
   pose proof (M_cfg _ _ I) as Ec. pose proof (M_w _ _ I) as WI. pose proof (M_rs _ _ I) as RS.
   unfold m_step in St. rewrite Ec in St. destruct t as [| j ch | | | | v]; try contradiction.
   - destruct (w_step c (m_w m) _ _) as [w' [it|]] eqn:W; inversion St; subst m' o; clear St; [|exact TG].
@@ -705,9 +709,9 @@ Theorem fresh_machine_exact c ts m o j r q e : safe_cfg c = true -> (0 < c_retri
   exists k m' pre ret r', k <= c_cells c + 4 /\
     m_run m (repeat (TR j None) k) = (m', pre ++ [ORet j ret (r_cache r')]) /\ Forall is_access pre /\
     nth_error (m_rs m') j = Some r' /\ r_pc r' = RIdle /\ m_w m' = m_w m /\
-    (r_cache r' = rec_of (c_cells c) (e_att e) \/
+    (r_cache r' = recf (c_cells c) (e_att e) \/
      (ret = RetCache /\ r_cache r' = r_cache r /\
-      exists q' e' d, ev (w_log (m_w m)) q' = Some e' /\ e_kind e' = KEven /\ r_cache r = rec_of (c_cells c) (e_att e') /\
+      exists q' e' d, ev (w_log (m_w m)) q' = Some e' /\ e_kind e' = KEven /\ r_cache r = recf (c_cells c) (e_att e') /\
         (0 < d)%Z /\ Z.of_nat (evens_upto (w_log (m_w m)) q) = (Z.of_nat (evens_upto (w_log (m_w m)) q') + 32767 * d)%Z)).
 Proof.
   intros Hs Hret Hts R Hw Er Hpc Hq Ee Ke.
@@ -715,7 +719,7 @@ Proof.
   exists k, m', pre, ret, r'. repeat (split; [assumption|]).
   destruct Hres as [(_ & Hc & _)|(Hrc & Hc & Hg)]; [left; exact Hc|].
   pose proof (m_run_tag_win c Hs ts (m_init c) m o (MInv3_init c) Hts R Hw) as I3.
-  pose proof (M2_inv _ _ (M3_inv _ _ I3)) as I. pose proof (M_w _ _ I) as WI. pose proof (W_log _ _ WI) as LI.
+  pose proof (M3_inv _ _ I3) as I. pose proof (M_w _ _ I) as WI. pose proof (W_log _ _ WI) as LI.
   pose proof (W4_log _ (M_gen _ _ I)) as GC.
   assert (TI : GenTagInv c (w_log (m_w m)) r).
   { pose proof (M3_tag _ _ I3) as TG. rewrite Forall_forall in TG. apply TG. eapply nth_error_In; eauto. }
@@ -735,3 +739,5 @@ Proof.
       destruct (gv_eq_multiple _ _ H1 H2 Hgv) as (d & Hd & Hmul).
       exists q', e', d. split; [exact Ee'|]. split; [exact Ke'|]. split; [exact Hc'|]. split; [|exact Hmul]. clear - Hst Hmul Hd. lia.
 Qed.
+
+End Gen.
